@@ -352,6 +352,17 @@ def check(run: Run) -> None:
                             at_ = apps_[0]
                     if fh_.cfg.has_node(at_) and any(known_empty(Facts(fh_, at_).atoms, nm) is True for nm in res_lists):
                         raw_ok = True
+                    if not raw_ok and not res_lists and isinstance(st_w, ast.Assign) and st_w.value is where and len(st_w.targets) == 1 and isinstance(st_w.targets[0], ast.Name):
+                        # latest-result slot instead of a list: the record goes into a variable that is known to be None
+                        # here (nothing recorded so far), directly or through a name made in the statement before
+                        from ..model import parent as _par3
+
+                        blk3 = next((getattr(_par3(st_w), f_) for f_ in ("body", "orelse", "finalbody") if isinstance(getattr(_par3(st_w), f_, None), list) and any(y is st_w for y in getattr(_par3(st_w), f_))), [])
+                        nxt3 = blk3[[i for i, y in enumerate(blk3) if y is st_w][0] + 1:][:1] if blk3 else []
+                        slot3 = [st_w] + [x for x in nxt3 if isinstance(x, ast.Assign) and len(x.targets) == 1 and isinstance(x.targets[0], ast.Name) and isinstance(x.value, ast.Name) and x.value.id == st_w.targets[0].id]
+                        for s3 in slot3:
+                            if fh_.cfg.has_node(s3) and any(pol and isinstance(a, ast.Compare) and len(a.ops) == 1 and isinstance(a.ops[0], ast.Is) and isinstance(a.left, ast.Name) and a.left.id == s3.targets[0].id and isinstance(a.comparators[0], ast.Constant) and a.comparators[0].value is None for a, pol in Facts(fh_, s3).atoms):
+                                raw_ok = True
             run.check(_is_filled(nt) or raw_ok, "C07.R2", g_, stmt_of(c), "candidate results carry the normalised call (the raw call only when no definition was found)", f"a candidate result carries {show(nt)[:60]} instead of the normalised call")
 
     # the candidate loop ends at the first fully resolved candidate, whichever way that candidate was resolved: the test that
